@@ -293,6 +293,33 @@ def e2e_part(ck: Check, rnd):
                                          f"{key}: converged at tol={tol:g} but |phi_T(x0)-x0| = {clos:.3e} > {bound:.1e}",
                                          {"part": "e2e", "system": [p, s], "L": li, "family": fam, "case": key,
                                           "tols": [tol_first, tol_second], "tol": tol, "closure": clos})
+    # history: an orbit REBUILT from an already converged state (the correction then needs zero Newton iterations), carrying a period
+    # that is set but not the orbit's own (a rounded / inherited value).  After a successful correct() the state and the period
+    # the object reports must close.
+    system = System.from_bodies(*systems[0])
+    for li, fam, kw in ((1, "halo", dict(amplitude_z=0.2, zenith="southern")), (2, "lyapunov", dict(amplitude_x=4e-3))):
+        L = system.get_libration_point(li)
+        key = f"{systems[0][0]}-{systems[0][1]}|L{li}|{fam}|rebuilt-from-converged-state-with-rounded-period"
+        ck.count(("e2e-history", key), True)
+        try:
+            ref = L.create_orbit(fam, **kw)
+            ref.correct()
+            x_conv, T_conv = np.asarray(ref.initial_state, dtype=float).copy(), float(ref.period)
+            orbit = L.create_orbit(fam, initial_state=x_conv.copy(), **({"zenith": kw["zenith"]} if "zenith" in kw else {}))
+            orbit.period = float(f"{T_conv:.3g}")
+            res = orbit.correct()
+        except Exception as ex:
+            ck.notes.append(f"history {key}: {type(ex).__name__}: {str(ex)[:120]} (a raise is allowed)")
+            continue
+        x0, T = np.asarray(orbit.initial_state, dtype=float), float(orbit.period)
+        sol = _propagate_dynsys(system.dynsys, x0, 0.0, T, forward=1, steps=2, method="adaptive", order=8, rtol=1e-13, atol=1e-13)
+        clos = float(np.linalg.norm(np.asarray(sol.states[-1], dtype=float) - x0))
+        results.append((key, 1e-12, "converged" if res.converged else "not-converged", float(res.residual_norm), clos))
+        if res.converged and not (clos <= 1e-7):
+            ck.violation("orbit.correct|converged-orbit-does-not-close",
+                         f"{key}: correct() reports converged (|R| = {float(res.residual_norm):.2e}) but with the period the object reports "
+                         f"({T!r}; the orbit's own is {T_conv!r}) |phi_T(x0)-x0| = {clos:.3e}",
+                         {"part": "e2e", "system": list(systems[0]), "L": li, "family": fam, "case": key, "closure": clos})
     ck.part("e2e", runs=len(results), detail=[{"case": k, "tol": t, "status": st, "residual": r, "closure": c}
                                               for (k, t, st, r, c) in results][:40])
     for (k, t, st, r, c) in results[:3]:
